@@ -279,4 +279,55 @@ pub fn search(tier: &str, seed: u64, s: &mut Search) {
         let svg = crate::gen::random_doc(&mut rng, crate::gen::Cfg::full(w, h));
         check(s, "generated", &svg.clone(), &svg, &o, &mut rng);
     }
+    // ---- style sheets with structural selectors (:first-child, a + b, a > b, descendant): comments, processing
+    // instructions and white space are not elements and must not change what the selectors match
+    // (element-shaped junk is left out here: an unknown element IS a sibling for CSS)
+    let ns = (if tier == "thorough" { 1500 } else { 150 }) * mult;
+    for _ in 0..ns {
+        let sel = |rng: &mut Rng| -> String {
+            match rng.below(6) {
+                0 => "rect:first-child".to_string(),
+                1 => "g > circle:first-child".to_string(),
+                2 => "rect + circle".to_string(),
+                3 => "circle + rect".to_string(),
+                4 => "g g > rect:first-child".to_string(),
+                _ => "g:first-child + g > *:first-child".to_string(),
+            }
+        };
+        let rules: String = (0..2 + rng.below(3)).map(|_| format!("{} {{ fill: {}; stroke: {} }} ", sel(&mut rng), rng.pick(&["#f00", "#00f", "#0a0"]), rng.pick(&["none", "#000"]))).collect();
+        let child = |rng: &mut Rng, k: usize| -> String {
+            if rng.chance(1, 2) { format!(r#"<rect x="{}" y="{}" width="12" height="10"/>"#, 5 + 14 * k, 5 + 3 * k) } else { format!(r#"<circle cx="{}" cy="{}" r="6"/>"#, 10 + 14 * k, 30 + 3 * k) }
+        };
+        let group = |rng: &mut Rng, off: usize| -> String {
+            let kids: String = (0..2 + rng.below(3) as usize).map(|k| child(rng, k)).collect();
+            format!(r#"<g transform="translate(0 {off})">{kids}</g>"#)
+        };
+        let host = format!(
+            r#"<svg xmlns="http://www.w3.org/2000/svg" width="100" height="120"><style>{rules}</style><g>{}{}</g>{}{}</svg>"#,
+            group(&mut rng, 0), group(&mut rng, 40), child(&mut rng, 5), child(&mut rng, 6)
+        );
+        // positions between elements; only non-element junk
+        let pos: Vec<usize> = host.match_indices('<').map(|(i, _)| i).filter(|&i| i > host.find("</style>").unwrap() && !host[i..].starts_with("</style")).collect();
+        let Some((ta, pa)) = tree_and_pixels(&host, &o) else { continue };
+        let mut doc = host.clone();
+        let mut at: Vec<usize> = (0..1 + rng.below(4)).map(|_| *rng.pick(&pos)).collect();
+        at.sort_unstable_by(|a, b| b.cmp(a));
+        for p in at {
+            let j = *rng.pick(&["<!-- c -->", "<?pi data?>", "\n   ", "<!---->", "<!-- a --><?x?> \t"]);
+            doc.insert_str(p, j);
+        }
+        s.case("css-structural", &host, ta.len() > 120);
+        match tree_and_pixels(&doc, &o) {
+            None => s.finding("oracle:junk:comment-pi-space:rejected-or-panicked", "comments / processing instructions / white space make a styled document unparsable", &doc),
+            Some((tb, pb)) => {
+                if ta != tb {
+                    s.finding("oracle:junk:comment-pi-space:css-selector-matching-changed", "comments / processing instructions / white space between elements change what :first-child / + / > selectors match", &doc);
+                } else if let (Some(pa), Some(pb)) = (&pa, &pb) {
+                    if pa.data() != pb.data() {
+                        s.finding("oracle:junk:comment-pi-space:pixels-changed", "comments / processing instructions / white space change the pixels of a styled document", &doc);
+                    }
+                }
+            }
+        }
+    }
 }
